@@ -10,7 +10,7 @@
    engine) and ties the implementation model to the engine by comparing error sets. *)
 From Coq Require Import ZArith List String Bool.
 From TV Require Import Py.Prelude Model.Schema Model.ImplInput Model.ImplExec Model.Envelope
-     Model.ImplValidate Model.SpecValidate Model.RunValidate Proofs.ValidateProofs Proofs.ValidateRules Proofs.ValidateValues Proofs.ValidateSites Proofs.ValidateWalk Proofs.ValidateTree.
+     Model.ImplValidate Model.SpecValidate Model.RunValidate Proofs.ValidateProofs Proofs.ValidateRules Proofs.ValidateValues Proofs.ValidateSites Proofs.ValidateWalk Proofs.ValidateTree Proofs.SingleRoot.
 Import ListNotations.
 Open Scope string_scope.
 Open Scope list_scope.
@@ -168,6 +168,15 @@ Qed.
 Example C06_diamond_not_reported : cycle_rule diamond = Some [].
 Proof. vm_compute. reflexivity. Qed.
 
+(* 5.2.3.1 single root field: a document whose subscriptions each reach ONE response key at the root --
+   however often it is written, directly, through inline fragments and through fragment spreads (shared,
+   repeated, nested) -- is not refused by the rule *)
+Theorem C06_one_root_key_written_many_times_accepted doc errs :
+  (forall o, In o (operations doc) -> o_kind o = OpSubscription ->
+             exists k0, forall k, reachable_key (fragments doc) (o_sels o) k -> k = k0) ->
+  single_root_rule doc = Some errs -> errs = [].
+Proof. exact (single_root_rule_accepts doc errs). Qed.
+
 Print Assumptions C06_acyclic_fragments_accepted.
 Print Assumptions C06_distinct_operation_names_accepted.
 Print Assumptions C06_distinct_fragment_names_accepted.
@@ -187,3 +196,4 @@ Print Assumptions C06_correct_values_accepted.
 Print Assumptions C06_correct_arguments_accepted.
 Print Assumptions C06_field_node_exact.
 Print Assumptions C06_acceptance_characterised.
+Print Assumptions C06_one_root_key_written_many_times_accepted.
